@@ -234,6 +234,20 @@ def cleanup_scratch():
         _SCRATCH = None
 
 
+def cleanup_stale():
+    """Remove scratch directories left by processes that no longer exist (workers end with os._exit)."""
+    base = "/dev/shm" if os.path.isdir("/dev/shm") else "/tmp"
+    for n in os.listdir(base):
+        if n.startswith("verif-pptx-"):
+            try:
+                pid = int(n.rpartition("-")[2])
+                os.kill(pid, 0)
+            except (ValueError, ProcessLookupError):
+                shutil.rmtree(os.path.join(base, n), ignore_errors=True)
+            except PermissionError:
+                pass
+
+
 class SimDisk:
     """Durable state of the world: name -> bytes."""
 
